@@ -12,7 +12,8 @@ CONSTANTS Elems2, Elems3, LawsAll, Emit, Thorough
 VARIABLES cfg
 vars == <<cfg>>
 
-Operators == {"pointwise", "gonzalez", "gonzalez-inconsistent", "quad1", "quad2", "quad3", "quad5", "quad-adaptive", "active", "kelvinvoigt", "pressure", "contact"}
+Operators == {"pointwise", "gonzalez", "gonzalez-inconsistent", "quad1", "quad2", "quad3", "quad4", "quad5", "quad6", "quad-adaptive", "active", "kelvinvoigt", "pressure", "contact"}
+Quads == {"quad1", "quad2", "quad3", "quad4", "quad5", "quad6", "quad-adaptive"}
 Schemes == {"static", "midpoint", "newmark", "hht"}
 
 (* the step unknown is u_{n+1}; chain is the factor the simulation applies to the returned tangent *)
@@ -22,17 +23,21 @@ Chain(op, sch) == CASE sch = "static" -> "1" [] sch = "midpoint" -> "1/2" [] sch
 Sign(op) == IF op \in {"pressure", "contact"} THEN -1 ELSE 1
 (* operators whose tangent is exact (Newton-consistent); the others document an approximation *)
 Consistent(op) == op # "gonzalez-inconsistent"
+(* the work of the returned internal force over the step equals the change of stored energy: the discrete gradient (any law), and    *)
+(* every quadrature rule for a quadratic energy (its strain-path integrand is linear), under the midpoint scheme                       *)
+DiscreteGradient(op, sch, law) == sch = "midpoint" /\ (op \in {"gonzalez", "gonzalez-inconsistent"} \/ (op \in Quads /\ law = "SVQ"))     \* SVQ: Saint-Venant-Kirchhoff without the volumetric term K/2 (I3 - 1)^2, the quadratic energy
 
 Admissible(op, dim, el, sch, law) ==
     /\ (dim = 2 => el \in Elems2) /\ (dim = 3 => el \in Elems3)
     /\ (op \in {"gonzalez", "gonzalez-inconsistent"} => sch = "midpoint")                 \* rejected otherwise by the simulation
-    /\ (op \in {"quad1", "quad2", "quad3", "quad5", "quad-adaptive"} => sch # "static")     \* a dynamic scheme is required
+    /\ (op \in Quads => sch # "static")     \* a dynamic scheme is required
     /\ (op = "kelvinvoigt" => sch # "static")                                               \* needs a velocity
     /\ (op = "pressure" => dim = 3 /\ law = "NH")                                           \* surface operators do not depend on the law
     /\ (op = "contact" => law = "NH")
     /\ (op \in {"active", "kelvinvoigt"} => law \in {"NH", "SVK"})
+    /\ (law = "SVQ" => op \in Quads)
     /\ (~Thorough => (sch \in {"static", "midpoint"} \/ op \in {"quad3", "pointwise"}))
-    /\ (~Thorough => (law \in {"NH", "HO", "AD"} \/ op = "pointwise"))
+    /\ (~Thorough => (law \in {"NH", "HO", "AD"} \/ op = "pointwise" \/ (law = "SVQ" /\ op \in Quads /\ sch = "midpoint" /\ el \in {"QUAD4", "HEXA8"})))
 
 Configs == { c \in [op : Operators, dim : {2, 3}, el : Elems2 \cup Elems3, sch : Schemes, law : LawsAll] : Admissible(c.op, c.dim, c.el, c.sch, c.law) }
 
@@ -51,6 +56,6 @@ Spec == Init /\ [][Next]_vars
 (* every operator appears, in both dimensions where it exists *)
 TypeOK == cfg.kind \in {"config", "program"}
 EmitOK == Emit => IF cfg.kind = "config"
-                  THEN PrintT(<<"CONFIG", ToJson([c |-> cfg.c, chain |-> Chain(cfg.c.op, cfg.c.sch), sign |-> Sign(cfg.c.op), consistent |-> Consistent(cfg.c.op)])>>)
+                  THEN PrintT(<<"CONFIG", ToJson([c |-> cfg.c, chain |-> Chain(cfg.c.op, cfg.c.sch), sign |-> Sign(cfg.c.op), consistent |-> Consistent(cfg.c.op), identity |-> DiscreteGradient(cfg.c.op, cfg.c.sch, cfg.c.law)])>>)
                   ELSE PrintT(<<"PROGRAM", ToJson(cfg.c)>>)
 =============================================================================
